@@ -2231,7 +2231,13 @@ class CIMInstanceName(_CIMComparisonMixin, SlottedPickleMixin):
                 # without loss.
                 # Note that repr() on a CIMFloat object returns its debug
                 # representation, so it is converted to float first.
-                ret.append(repr(float(value)))
+                value_str = repr(float(value))
+                if 'e' in value_str and '.' not in value_str:
+                    # repr() omits the fraction for values such as 1e+16, but
+                    # realValue in DSP0004 (and thus from_wbem_uri()) requires
+                    # the mantissa to have a fraction.
+                    value_str = value_str.replace('e', '.0e')
+                ret.append(value_str)
             elif isinstance(value, (CIMInt, int)):
                 # intNN
                 ret.append(str(value))
